@@ -500,10 +500,29 @@ func c06Config(r *mon.Run, cfg c06cfg, jr *rand.Rand, idx int) {
 			fault{"witness.sacc missing", func(m *gabi.IssueSignatureMessage) { m.NonRevocationWitness.SignedAccumulator = nil }},
 		)
 	}
-	for _, f := range faults {
+	// refused (and accepted-by-mistake) messages must leave the builder as it was: the genuine message is delivered again
+	// after the first fault, after every sixth, and at the end, and has to produce the credential each time
+	redeliver := func(after string) {
+		var c2 *gabi.Credential
+		var e2 error
+		pv2, _ := mon.Try(func() { c2, e2 = h.run.Builder.ConstructCredential(cloneISM(base), cloneInts(h.run.Attrs)) })
+		good := pv2 == nil && e2 == nil && c2 != nil
+		if good {
+			good, _ = c06RefChecks(h, base, cloneInts(h.run.Attrs), c2)
+		}
+		r.Eval("honest-redelivery", outcome(good, pv2))
+		if !good {
+			r.Violation("C06/honest-run-fails/after-deviating-messages", fmt.Sprintf("the genuine issuer message no longer yields the credential after the builder has seen deviating messages (last: %s): err=%v panic=%v (%s)", after, e2, pv2, cfg),
+				map[string]any{"config": cfg.String(), "after": after})
+		}
+	}
+	for fi, f := range faults {
 		m := cloneISM(base)
 		f.f(m)
 		deliver("fault-sigmsg", f.name, m, h.run.Attrs, false)
+		if fi == 0 || fi%6 == 5 || fi == len(faults)-1 {
+			redeliver(f.name)
+		}
 	}
 	// holder told different attributes than the issuer signed
 	for i := range h.run.Attrs {
